@@ -90,62 +90,65 @@ var c10eObjects = sync.OnceValue(func() *objectz.ObjectStore[*c10eObj] {
 	return st
 })
 
-// c10eEntries runs the filter through every parsing entry point
-func c10eEntries(filter string) string {
-	env := c10sEnv()
-	letters := make([]byte, len(c10eNames))
-	var sites []string
-	run := func(k int, f func() bool) {
-		defer func() {
-			if r := recover(); r != nil {
-				letters[k] = 'P'
-				sites = append(sites, strconv.Itoa(k)+":"+c10Site())
-			}
-		}()
-		if f() {
-			letters[k] = 'A'
-		} else {
-			letters[k] = 'R'
+// c10eCall hands the filter to entry point k: accepted or not, or the site of the panic
+func c10eCall(k int, filter string) (accepted bool, site string) {
+	defer func() {
+		if r := recover(); r != nil {
+			accepted, site = false, c10Site()
 		}
-	}
-	run(0, func() bool { return len(zitiql.Parse(filter, &c10NopListener{})) == 0 })
-	run(1, func() bool { return len(zitiql.ParseWithDebug(filter, &c10NopListener{}, false)) == 0 })
-	run(2, func() bool { return len(zitiql.ParseWithDebug(filter, &c10NopListener{}, true)) == 0 })
-	run(3, func() bool { return len(zitiql.Parse(filter, &c10NopListener{})) == 0 })
-	run(4, func() bool {
+	}()
+	switch k {
+	case 0, 3:
+		return len(zitiql.Parse(filter, &c10NopListener{})) == 0, ""
+	case 1:
+		return len(zitiql.ParseWithDebug(filter, &c10NopListener{}, false)) == 0, ""
+	case 2:
+		return len(zitiql.ParseWithDebug(filter, &c10NopListener{}, true)) == 0, ""
+	case 4:
 		l := ast.NewListener()
-		return len(zitiql.Parse(filter, l)) == 0 && !l.HasError()
-	})
-	main := env.roots[0].fam.main
-	run(5, func() bool {
-		_, err := ast.Parse(main, filter)
-		return err == nil
-	})
-	func() {
+		return len(zitiql.Parse(filter, l)) == 0 && !l.HasError(), ""
+	case 5:
+		_, err := ast.Parse(c10sEnv().roots[0].fam.main, filter)
+		return err == nil, ""
+	case 6:
+		env := c10sEnv()
 		_ = env.db.View(func(tx *bbolt.Tx) error {
 			// recover inside the transaction function, so that the read transaction is always released
 			defer func() {
 				if r := recover(); r != nil {
-					letters[6] = 'P'
-					sites = append(sites, "6:"+c10Site())
+					accepted, site = false, c10Site()
 				}
 			}()
-			letters[6] = 'R'
-			if _, _, err := main.QueryIds(tx, filter); err == nil {
-				letters[6] = 'A'
-			}
+			_, _, err := env.roots[0].fam.main.QueryIds(tx, filter)
+			accepted = err == nil
 			return nil
 		})
-	}()
-	obj := c10eObjects()
-	run(7, func() bool {
-		_, err := ast.Parse(obj, filter)
-		return err == nil
-	})
-	run(8, func() bool {
-		_, _, err := obj.QueryEntities(filter)
-		return err == nil
-	})
+		return accepted, site
+	case 7:
+		_, err := ast.Parse(c10eObjects(), filter)
+		return err == nil, ""
+	default:
+		_, _, err := c10eObjects().QueryEntities(filter)
+		return err == nil, ""
+	}
+}
+
+// c10eEntries runs the filter through every parsing entry point
+func c10eEntries(filter string) string {
+	letters := make([]byte, len(c10eNames))
+	var sites []string
+	for k := range c10eNames {
+		accepted, site := c10eCall(k, filter)
+		switch {
+		case site != "":
+			letters[k] = 'P'
+			sites = append(sites, strconv.Itoa(k)+":"+site)
+		case accepted:
+			letters[k] = 'A'
+		default:
+			letters[k] = 'R'
+		}
+	}
 	out := "n" + string(letters)
 	if len(sites) > 0 {
 		out += ";" + strings.Join(sites, ";")
